@@ -34,6 +34,19 @@ def main():
         rng = random.Random(seed * 1000003 + int(a.prop[1:]))
         lean = checklib.lean_status(a.prop)
         extra = reg["run"](run, rng) or {}
+        # a file this property depends on differs from the tree the model was last validated against: look harder
+        # (more random streams / scenarios with fresh seeds). This never changes a verdict by itself.
+        import fingerprint
+        changed = fingerprint.relevant_changes(a.prop)
+        if changed:
+            run.notes.append("source changed since the model was validated (" + ", ".join(changed) + "): extra passes")
+            passes = int(os.environ.get("VERIF_EXTRA_PASSES", "1" if (a.tier != "quick" or a.prop == "C09") else "3"))
+            for k in range(1, passes + 1):
+                if any(not f[4] for f in run.failures):
+                    break               # a failing input that is not a known finding is already in hand
+                run.pass_no = k
+                reg["run"](run, random.Random((seed + 7919 * k) * 1000003 + int(a.prop[1:])))
+            run.pass_no = 0
         return checklib.finish(run, lean, reg["level_text"], reg["rule"], reg["assumptions"],
                                extra_cov=extra.get("coverage"), search=extra.get("search"))
     except KeyboardInterrupt:
